@@ -80,6 +80,23 @@ def build_sigs(prog):
     return sigs
 
 
+def _int_valued(e):
+    """the expression is integer-typed by construction (sizes, integer literals and variables, + - * of such)"""
+    k = e.get('k')
+    ty = str(e.get('ty', '')).replace('const ', '').strip()
+    if ty in INT_TYPES or ty.endswith('size_type') or ty.endswith('::size_t'):
+        return True
+    if k == 'Num':
+        return e.get('t') == 'i'
+    if k in ('Cast', 'Paren', 'DefaultArg'):
+        return (k == 'Cast' and ty in INT_TYPES) or _int_valued(e['e'])
+    if k == 'Bin' and e['op'] in ('+', '-', '*', '%'):
+        return _int_valued(e['a']) and _int_valued(e['b'])
+    if k == 'MCall' and e.get('callee', {}).get('qn', '').endswith(('::size', '::length', '::count')):
+        return True
+    return False
+
+
 class Lower:
     def __init__(self, fn, sigs=None, keep_bindings=False):
         self.fn = fn
@@ -132,7 +149,7 @@ class Lower:
             x = self.ex(e['e'])
             if t in INT_TYPES:
                 st = str(e['e'].get('ty', '')).replace('const ', '').strip()
-                if st in INT_TYPES or st.endswith('size_type') or st.endswith('::size_t') or st in ('bool', 'char'):
+                if st in INT_TYPES or st.endswith('size_type') or st.endswith('::size_t') or st in ('bool', 'char') or _int_valued(e['e']):
                     return x          # integer to integer: value-preserving for every value that occurs (sizes, counters)
                 return ('op', 'int', x)
             return x
